@@ -9,6 +9,7 @@ require (
 	github.com/prysmaticlabs/prysm/v3 v3.2.1
 	github.com/syndtr/goleveldb v1.0.1-0.20220721030215-126854af5e6d
 	github.com/tyler-smith/go-bip39 v1.1.0
+	lukechampine.com/frand v1.4.2
 )
 
 require (
@@ -49,7 +50,6 @@ require (
 	golang.org/x/sys v0.3.0 // indirect
 	golang.org/x/text v0.5.0 // indirect
 	gopkg.in/yaml.v2 v2.4.0 // indirect
-	lukechampine.com/frand v1.4.2 // indirect
 )
 
 replace github.com/lidofinance/dc4bc => /repo
